@@ -220,7 +220,7 @@ func (c *OCSPRevocationChecker) tryGetResponseFromCache(cacheKey string) (*core.
 		cached := res.Data().(cachedRevocationStatus)
 		//the cache table renews the lifespan of an item on every access, so enforce the absolute end of life here
 		if time.Now().After(cached.expiresAt) {
-			_, _ = c.cache.Delete(cacheKey)
+			//the stale item is replaced by the next successful query or removed by the expiration check of the table
 			return nil, errors.New("cached ocsp response is expired")
 		}
 		return &cached.status, nil
